@@ -13,6 +13,8 @@ from .state import State
 from .values import (ADT, And, BoundMethod, ClassVal, ExcVal, ExtVal, FuncVal, Not, Opt, Raised, Rec, Ref, Seg, Tup,
                      Unsupported, exc_is_a, is_z3)
 
+import os as _os
+_TRACE = _os.environ.get("PYVC_TRACE") == "1"
 Out = Iterator[tuple[State, tuple]]
 NORMAL = ("normal",)
 
@@ -31,6 +33,8 @@ class StmtMixin(ExprMixin):
 
     def exec_stmt(self, s: ast.stmt, st: State, ctx: Ctx) -> Out:
         self.stmts_executed += 1
+        if _TRACE:
+            print(f"[trace] {'  ' * self.call_depth}L{s.lineno} {type(s).__name__}: {ast.unparse(s).splitlines()[0][:100]}", flush=True)
         m = getattr(self, "exec_" + type(s).__name__, None)
         if m is None:
             raise Unsupported(f"statement {type(s).__name__}", s)
@@ -309,7 +313,12 @@ class StmtMixin(ExprMixin):
         yield from self.loop_cut(s, st, ctx)
 
     def exec_For(self, s: ast.For, st: State, ctx: Ctx) -> Out:
-        for st1, it in self.eval(s.iter, st, ctx):
+        from .loops import resolve_iterable
+        for st0, it0 in self.eval(s.iter, st, ctx):
+          if isinstance(it0, Raised):
+              yield st0, ("raise", it0.exc)
+              continue
+          for st1, it in resolve_iterable(self, st0, it0, s, ctx):
             if isinstance(it, Raised):
                 yield st1, ("raise", it.exc)
                 continue
